@@ -499,6 +499,11 @@ pub mod integrate {
         /// rules only have nodes inside [a, b], so the reference value is unchanged.
         #[serde(default)]
         pub support_only: bool,
+        /// Grid rule only: the density is a table over the caller's grid, looked up with the index argument the
+        /// integrator announces (the grid is the caller's, so index i can only mean grid[i]); an index outside the
+        /// grid yields NaN. Increments of 0 (repeated grid points, zero-width segments) are legal for this rule.
+        #[serde(default)]
+        pub table_density: bool,
     }
 
     /// compare `r` with sum_i exp(terms[i]) * exp(ln_factor), everything scaled by the largest term
@@ -581,21 +586,26 @@ pub mod integrate {
                 (compare("ln_simpsons_integrate_exp", c, r, &terms, (b - a).ln() - (3.0 * (n as f64 - 1.0)).ln())?, n)
             }
             Rule::Grid { incs } => {
-                ensure!(incs.len() >= 2 && incs.iter().all(|&d| d >= 1), "harness: bad grid case {:?}", c);
+                ensure!(incs.len() >= 2 && incs.iter().any(|&d| d >= 1), "harness: bad grid case {:?}", c);
                 let mut grid = vec![a];
                 let mut cum = c.start as i64;
                 for &d in incs {
                     cum += d as i64;
                     grid.push(cum as f64 / den);
                 }
-                let r = *LogProb::ln_trapezoidal_integrate_grid_exp(density, &grid);
+                let r = if c.table_density {
+                    let table: Vec<f64> = grid.iter().map(|&x| dens.ln_f(x)).collect();
+                    *LogProb::ln_trapezoidal_integrate_grid_exp(|i: usize, _x: f64| LogProb(table.get(i).copied().unwrap_or(f64::NAN)), &grid)
+                } else {
+                    *LogProb::ln_trapezoidal_integrate_grid_exp(density, &grid)
+                };
                 let mut terms = Vec::with_capacity(incs.len());
                 for i in 1..grid.len() {
                     let (l0, l1) = (dens.ln_f(grid[i - 1]), dens.ln_f(grid[i]));
                     zero_at_node |= l0 == f64::NEG_INFINITY || l1 == f64::NEG_INFINITY;
                     let (hi, lo) = (l0.max(l1), l0.min(l1));
                     // ln((f0+f1)/2 * dx)
-                    let t = if hi == f64::NEG_INFINITY { hi } else { hi + (lo - hi).exp().ln_1p() - 2f64.ln() + (grid[i] - grid[i - 1]).ln() };
+                    let t = if hi == f64::NEG_INFINITY || grid[i] == grid[i - 1] { f64::NEG_INFINITY } else { hi + (lo - hi).exp().ln_1p() - 2f64.ln() + (grid[i] - grid[i - 1]).ln() };
                     terms.push(t);
                 }
                 (compare("ln_trapezoidal_integrate_grid_exp", c, r, &terms, 0.0)?, grid.len())
@@ -620,6 +630,11 @@ pub mod integrate {
         pass.add_if(zero_at_node, "density zero at a node");
         pass.add_if(c.start < 0, "negative lower bound");
         pass.add_if(c.support_only && !zero_at_node, "density supported on [a, b] only, positive at the ends");
+        pass.add_if(c.table_density && matches!(c.rule, Rule::Grid { .. }), "grid rule: density given as a table over the grid index");
+        if let Rule::Grid { incs } = &c.rule {
+            pass.add_if(incs.iter().any(|&d| d == 0), "grid with a repeated point");
+            pass.add_if(c.table_density && incs[..incs.len() - 1].iter().any(|&d| d == 0), "table density on a grid with a repeated point before the end");
+        }
         let _ = outside.get();
         Ok((pass, err))
     }
@@ -648,11 +663,18 @@ pub mod integrate {
                 let rule = match which {
                     0 => (1u32..=200_000).prop_map(move |width| Rule::Trapezoid { n, width }).boxed(),
                     1 => (1u32..=200_000).prop_map(move |width| Rule::Simpson { half: (n - 1) / 2, width }).boxed(),
-                    _ => proptest::collection::vec(prop_oneof![3 => 1u16..=50, 1 => 1u16..=5000], n - 1).prop_map(|incs| Rule::Grid { incs }).boxed(),
+                    _ => proptest::collection::vec(prop_oneof![1 => Just(0u16), 9 => 1u16..=50, 3 => 1u16..=5000], n - 1)
+                        .prop_map(|mut incs| {
+                            if incs.iter().all(|&d| d == 0) {
+                                incs[0] = 1;
+                            }
+                            Rule::Grid { incs }
+                        })
+                        .boxed(),
                 };
-                (Just(d), rule, -100_000i32..=100_000, 0u32..=2000, prop_oneof![2 => Just(false), 1 => Just(true)])
+                (Just(d), rule, -100_000i32..=100_000, 0u32..=2000, prop_oneof![2 => Just(false), 1 => Just(true)], prop_oneof![2 => Just(false), 1 => Just(true)])
             })
-            .prop_map(|(dens, rule, start, tail, support_only)| {
+            .prop_map(|(dens, rule, start, tail, support_only, table_density)| {
                 let span: u32 = match &rule {
                     Rule::Trapezoid { width, .. } | Rule::Simpson { width, .. } => *width,
                     Rule::Grid { incs } => incs.iter().map(|&d| d as u32).sum(),
@@ -663,11 +685,11 @@ pub mod integrate {
                         let start = start.unsigned_abs() % 2001;
                         let tail = if tail % 3 == 0 { 0 } else { tail };
                         let start = if start % 3 == 0 { 0 } else { start };
-                        Case { dens, rule, start: start as i32, denom: start + span + tail, support_only }
+                        Case { dens, rule, start: start as i32, denom: start + span + tail, support_only, table_density }
                     }
                     // support [0, inf)
-                    Dens::Expo { .. } => Case { dens, rule, start: start.abs(), denom: 1000, support_only },
-                    _ => Case { dens, rule, start, denom: 1000, support_only },
+                    Dens::Expo { .. } => Case { dens, rule, start: start.abs(), denom: 1000, support_only, table_density },
+                    _ => Case { dens, rule, start, denom: 1000, support_only, table_density },
                 }
             })
             .boxed()
